@@ -483,3 +483,30 @@ where
     };
     newton_raphson_onesided(x0, f0, f1)
 }
+
+// read-only verification accessors
+#[cfg(feature = "verif")]
+impl<T: FloatT> GenPowerCone<T> {
+    /// returns copies of (grad, z, d2); μ, p, q, r, d1 are already public
+    pub fn verif_state(&self) -> (Vec<T>, Vec<T>, T) {
+        (self.data.grad.clone(), self.data.z.clone(), self.data.d2)
+    }
+    pub fn verif_is_primal_feasible(&self, s: &[T]) -> bool {
+        self.is_primal_feasible(s)
+    }
+    pub fn verif_is_dual_feasible(&self, z: &[T]) -> bool {
+        self.is_dual_feasible(z)
+    }
+    pub fn verif_barrier_primal(&mut self, s: &[T]) -> T {
+        self.barrier_primal(s)
+    }
+    pub fn verif_barrier_dual(&mut self, z: &[T]) -> T {
+        self.barrier_dual(z)
+    }
+    pub fn verif_update_dual_grad_H(&mut self, z: &[T]) {
+        self.update_dual_grad_H(z)
+    }
+    pub fn verif_gradient_primal(&self, g: &mut [T], s: &[T]) {
+        self.gradient_primal(g, s)
+    }
+}
